@@ -13,7 +13,7 @@ RULE = ('Hypothesis draws (biort in 4 documented names, qshift in 5 documented n
         'images when H*W <= 192, dense inputs always; shapes must follow the reference pyramid. Non-trivial = '
         'J>=2 with an odd or pad-to-4 size, or a non-default filter pair. Distinct = configuration without seeds.')
 ASSUMPTIONS = ['the NumPy dtcwt 0.14 package is the reference', 'linearity (C07) extends basis agreement to all inputs',
-               'tolerance 1e-9*max(1,gain*max|x|) float64, 64*eps32*gain*max|x| float32']
+               'tolerance 1e-11*max(1,gain*max|x|) float64, 64*eps32*gain*max|x| float32']
 STRATA = {'thorough': 'all 24 filter pairs x J in 1..4', 'quick': ''}
 LABEL_FLOORS = {'odd_rows': 0.2, 'odd_cols': 0.2, 'pad4_rows': 0.2, 'pad4_cols': 0.2}
 
@@ -44,6 +44,7 @@ def _case(draw, unit):
             'N': draw(st.sampled_from([1, 1, 2, 3])), 'C': draw(st.sampled_from([1, 2, 3, 3, 7, 33])),
             'dtype': draw(st.sampled_from(['f64', 'f64', 'f64', 'f32'])),
             'filt_form': draw(st.sampled_from(['names', 'names', 'names', 'tuples'])),
+            'later_sibling': draw(st.integers(0, 2)) == 0,
             'reused': draw(st.integers(0, 2)) == 0, 'other_precision_first': draw(st.integers(0, 3)) == 0, 'ctx': draw(st.sampled_from(core.GRAD_CTXS)),
             'layout': list(draw(st.sampled_from([(2, -1)] * 5 + LAYOUT_POOL))),
             'rx': draw(core.recipe_strategy()), 'k': draw(st.integers(0, 10**6))}
@@ -93,6 +94,13 @@ def _run_case(case):
                 fwd = fresh         # buffers of the twin do not have the same shapes: no reuse possible
         else:
             fwd = DTCWTForward(biort=fb, qshift=fq, J=J)
+    if case.get('later_sibling'):
+        # between construction and use another transform with a different filter pair is constructed (and used once):
+        # a module computes with its own construction parameters, not with the most recent ones in the process
+        r.label('sibling_constructed_later')
+        ob, oq = dtu.other_pair(b, q)
+        with dwtu.default_dtype(tdt), torch.inference_mode(False):
+            core.libcall(lambda: DTCWTForward(biort=ob, qshift=oq, J=max(J, 2))(torch.ones(1, case['C'], 8, 8, dtype=tdt)))
     if case.get('other_precision_first'):
         # earlier in the module's life: one call with an input of the other precision (outcome ignored)
         r.label('after_other_precision_call')
@@ -111,7 +119,7 @@ def _run_case(case):
             return r.fail('shape', 'pyramid shapes %s, reference %s' % (got_shapes, shapes))
         got = dtu.lib_flat(yl, yh)
         g = max(1.0, float(np.abs(want).sum(0).max()))
-        tol = (64 * core.EPS32 if f32 else 1e-9) * g
+        tol = (64 * core.EPS32 if f32 else core.TOL64) * g
         okc, err = core.close(got, want, tol)
         r.metric('operator_abs_err_' + case['dtype'], err)
         if not okc:
@@ -167,7 +175,7 @@ def _run_case(case):
     got = dtu.lib_flat(yl, yh)
     if g == 1.0:
         g = 4.0 ** J
-    tol = (64 * core.EPS32 if f32 else 1e-9) * max(g * core.maxabs(x), 1e-300)
+    tol = (64 * core.EPS32 if f32 else core.TOL64) * max(g * core.maxabs(x), 1e-300)
     okc, err = core.close(got, want, tol)
     r.metric('dense_rel_err_' + case['dtype'], err / max(g * core.maxabs(x), 1e-300))
     if not okc:
